@@ -14,9 +14,10 @@ ELEM = "element type instantiated to u64 / Nat in the correspondence runs (the t
 VEC_RULE = ("engine vec — exhaustive: (A) initial contents of length 0..3 x every mutator with every index 0..len+2, sequences of length 1 and 2 "
             "(thorough: 3), plain+batched subscriber; (B) every transaction body of length <=2 (thorough 3) over 16 ops x 5 ways of ending x with/without "
             "subscribers; (C) capacities {1,2,3,4,5,7,8} x 0..B+3 unpolled updates x transactions x vector dropped or not x pre-polled or not; (D) every "
-            "keep/set/remove/set-remove/stop decision sequence over vectors of length <=3 (thorough 4), direct and in a transaction; random: 2500 (thorough 20000) "
+            "keep/set/remove/set-remove/stop decision sequence over vectors of length <=3 (thorough 4), direct and in a transaction; random: 2500 (thorough 150000) "
             "histories of 10..50 (80) steps with up to 4 subscribers of both flavours created/dropped/polled at random, capacities {1,2,3,5,7,16,64}, entries, "
-            "transactions, final drop of the vector. Every case is non-trivial (it mutates and delivers); distinct = distinct (ops, results) traces.")
+            "transactions, final drop of the vector; the model's ghost replica of every polled subscriber is compared with the harness's strict replica. Engine vconc (C05/C06/C08) — a writer thread against a plain and a "
+            "batched stream polled on two other threads, capacities {1,2,3,4,8}, 200..5000 updates, 3000 (thorough 40000) rounds, oracles only. Every case is non-trivial (it mutates and delivers); distinct = distinct (ops, results) traces.")
 
 def vec_prop(mods, expl, extra_assump=(), engines=None):
     return {
@@ -34,7 +35,7 @@ ADP_RULE = ("engine adp — exhaustive: (A) Head/Tail/Skip x source length 0..4 
             "(all indices, Append payloads of 0..3 items) x both stream flavours; (B) every limit/count change (old,new,len) for the dynamic adapters incl. the first value of "
             "a purely dynamic one, and the 2-step combinations diff;limit / limit;diff / limit;limit before one poll; (C) Filter/FilterMap: every pass/fail mask over the items "
             "present and the inserted values x every valid operation; (D) Sort/SortBy/SortByKey: every source of length <=3 (4) over a 3-value alphabet with ties x 4 comparators x "
-            "every valid operation except Truncate; (KF) confirmation cases of the known findings; random: 4000 (thorough 30000) histories over random chains of 1..3 stages "
+            "every valid operation except Truncate; (L) bursts of 31..100 updates invisible to the stage queued before one poll (capacity 128) x 10 stage lists x 3 endings; (KF) confirmation cases of the known findings; random: 4000 (thorough 200000) histories over random chains of 1..3 stages "
             "(static/dynamic/dynamic-with-initial head/tail/skip, filter, filter_map, sort*), transactions, lag-inducing capacities, limit changes and stream ends, polls at random or "
             "after every single operation (wake check). Per-stage transparent taps feed the implementation-side oracles. Every case is non-trivial; distinct = distinct traces.")
 
@@ -57,8 +58,9 @@ PROPS = {
         "level": "proof",
         "lean_modules": ["EyeballVerif.Props.C18"],
         "engines": [{"name": "diff"}],
-        "rule": ("exhaustive: every vector of length <= 4 (thorough 5) over {1,2} x every diff kind with every index 0..len+2 and "
-                 "payloads of length 0..3, each also under 4 element mappings; random: vectors of length 50..150 (beyond imbl's 64-element chunks). "
+        "rule": ("exhaustive: every vector of length <= 4 (thorough 6) over {1,2} x every diff kind with every index 0..len+2 and "
+                 "payloads of length 0..3, each also under 4 element mappings; size classes around imbl's 64-item chunk boundaries: 18 vector lengths (0-5, 31-33, 63-66, 127-130, 200) x 11 payload "
+                 "lengths for Append/Reset and 7 boundary indices for the indexed kinds, items position-dependent; random: 800 (thorough 100000) vectors of length 0..7 or 50..150 with payloads up to 300. "
                  "A case is non-trivial when apply does not panic; distinct = distinct (ops, results) traces."),
         "exhaustive": True,
         "trusted_base": [KERNEL, CORR, IMBL],
@@ -189,7 +191,8 @@ OBS_RULE = ("engine obs — exhaustive: every sequence of depth 2 (thorough 3) o
             "(set / set_if_not_eq equal+different / set_if_hash_not_eq same+different hash / take / update / update_if true+false, direct and through a write guard; "
             "subscribe, subscribe_reset, poll, next_now, get, reset, clone, clone_reset, drop of subscribers; clone, drop, downgrade, upgrade, drop-weak, into_shared, counts), "
             "on a unique Observable and on a SharedObservable, starting with one parked subscriber and ending with polls of every subscriber, drop of every owner, polls again and "
-            "upgrades; random: 2500 (thorough 20000) histories of 10..50 calls. The element type has PartialEq on v%8 and Hash on v/8 so equal-but-different-hash and "
+            "upgrades; (T) one task waker shared by several subscribers: every sequence of length 5 (thorough 6) over a 7-call alphabet; random: 2500 (thorough 100000) histories of 10..50 calls; async-lock flavour additionally "
+            "3000 (thorough 100000) guard histories with read/write guards held across calls, pending and cancelled futures, next_ref() futures. The element type has PartialEq on v%8 and Hash on v/8 so equal-but-different-hash and "
             "different-but-same-hash values occur. Every case is non-trivial; distinct = distinct traces.")
 
 def obs_prop(mods, expl, engines, extra_tb=(), extra_assump=()):
@@ -233,8 +236,10 @@ CONC_RULE = ("engine conc — real OS threads on one SharedObservable, each exec
              "driven by a director through the instrumented pause points (eyeball::verif): for 11 programs of 2-3 threads every interleaving of the pause-point segments is enumerated on a "
              "ledger (11..5230 schedules per program; all of them when <= 250 (thorough 4000), otherwise an evenly spread sample selected by the seed), including releases of a thread into a "
              "lock that another thread holds (it must block) and its later arrival; the recorded trace (arrived at which point / blocked / result) is replayed on the Lean lock-level model. "
-             "Plus 300 (thorough 3000) free-running rounds without pause points. Oracles at quiescence: a task whose last poll was Pending and whose waker was not woken is polled once more "
-             "(lost wakeup), stream ended iff no owner, set chain, subscribers end on the final value. Every case is non-trivial; distinct = distinct traces.")
+             "Plus free-running rounds without pause points, threads released from a spin barrier: 600 (thorough 20000) rounds for each of the 11 programs and of 10 more (concurrent last drops, next_now | set, "
+             "set_if_not_eq | set_if_not_eq, ...). Oracles at quiescence (also after a forced schedule that could not be followed): a task whose last poll was Pending and whose waker was not woken is polled once more "
+             "(lost wakeup), pending subscriber woken once every owner is gone, stream ended iff no owner, set chain, a replaced value differs from the new one, next_now's value and observed version belong together, "
+             "no update delivered twice, subscribers end on the final value. Every case is non-trivial; distinct = distinct traces.")
 LOCKS = ("std::sync::RwLock = many-readers/one-writer mutual exclusion (new readers may wait behind a queued writer: such schedules are not generated), Arc counts exact and atomic, "
          "Arc::into_inner returns Some for exactly one of the racing last owners; real hardware memory ordering below the lock API is outside the model (sequentially consistent at segment granularity)")
 
@@ -317,8 +322,8 @@ ENGINES = [
      "kind_free_text": "the same histories on the async-lock flavour, every future polled once by a hand-rolled executor, against the same Lean model"},
 ]
 
-PROPS["C20"]["rule"] = ("engine own — 1500 (thorough 12000) random histories of 5..45 calls on Observable / SharedObservable in both lock flavours with an instrumented element type "
+PROPS["C20"]["rule"] = ("engine own — 1500 (thorough 80000) random histories of 5..45 calls on Observable / SharedObservable in both lock flavours with an instrumented element type "
     "(set, set_if_not_eq equal/different, set_if_hash_not_eq, take, update, get, subscribe, poll, next_now, clone/drop of subscribers and owners, into_shared), the set of ids held by the "
-    "library compared with the Lean ledger after every call; 800 (thorough 6000) random histories on an ObservableVector with plain and batched subscribers, a head-filter-sort chain and a tail, "
+    "library compared with the Lean ledger after every call; 800 (thorough 40000) random histories on an ObservableVector with plain and batched subscribers, a head-filter-sort chain and a tail, "
     "transactions, entries, lag-inducing capacities, kept and mapped diffs, with the no-double-drop / nothing-left-alive check at the end. Every case is non-trivial; distinct = distinct traces.")
 PROPS["C20"]["exhaustive"] = False
